@@ -172,6 +172,15 @@ func readBlock(ctx context.Context, tmp string, snap map[string][]byte, id ulid.
 			return nil, err
 		}
 	}
+	// series of different streams (external labels) are different series
+	var m metadata.Meta
+	if err := json.Unmarshal(snap[pre+block.MetaFilename], &m); err != nil {
+		return nil, err
+	}
+	group, err := strconv.Atoi(strings.TrimPrefix(m.Thanos.Labels["cluster"], "c"))
+	if err != nil {
+		return nil, err
+	}
 	bl, err := tsdb.OpenBlock(nil, dir, nil, nil)
 	if err != nil {
 		return nil, err
@@ -193,7 +202,7 @@ func readBlock(ctx context.Context, tmp string, snap map[string][]byte, id ulid.
 		it := ser.Iterator(nil)
 		for it.Next() == chunkenc.ValFloat {
 			t, v := it.At()
-			out = append(out, smp{sn, t, int64(v)})
+			out = append(out, smp{group*1000 + sn, t, int64(v)})
 		}
 		if it.Err() != nil {
 			return nil, it.Err()
@@ -608,7 +617,7 @@ func gen(r *rand.Rand, tier string, n int) []any {
 }
 
 func main() {
-	common.Main(common.Prop{ID: "C29", Facts: facts, Gen: gen, Run: run, QuickN: 24, ThoroughN: 300, CaseTimeout: 120 * time.Second,
+	common.Main(common.Prop{ID: "C29", Facts: facts, Gen: gen, Run: run, QuickN: 20, ThoroughN: 300, CaseTimeout: 120 * time.Second,
 		Preamble: "Import C29.\n"})
 }
 
